@@ -254,3 +254,132 @@ Proof.
     exfalso. assert (In t (mlive m)) by (apply LV; split; assumption). rewrite Z in H. contradiction.
   - apply FN. lia.
 Qed.
+
+(* ---------------------------------------------------------------- content traits without finaliser *)
+
+Lemma mon_events_app m a b :
+  mon_events m (a ++ b) = match mon_events m a with inl m' => mon_events m' b | inr v => inr v end.
+Proof.
+  revert m; induction a as [|ev a IH]; intros m; simpl; [reflexivity|].
+  destruct (mon_event m ev); [apply IH|reflexivity].
+Qed.
+
+Lemma mon_events_good evs : forall m m', mon_good m -> mon_events m evs = inl m' -> mon_good m'.
+Proof.
+  induction evs as [|ev evs IH]; intros m m' G E; simpl in E.
+  - inversion E; subst. assumption.
+  - destruct (mon_event m ev) as [m1|] eqn:E1; [|discriminate].
+    eapply IH; [eapply mon_event_good; eassumption|assumption].
+Qed.
+
+Lemma filter_id {A} (f : A -> bool) l : (forall x, In x l -> f x = true) -> filter f l = l.
+Proof.
+  induction l as [|y l IH]; intros H; simpl; [reflexivity|].
+  rewrite (H y (or_introl eq_refl)). f_equal. apply IH. intros x Hx. apply H. right. assumption.
+Qed.
+
+Lemma filter_filter {A} (f g : A -> bool) l : filter f (filter g l) = filter (fun x => g x && f x) l.
+Proof.
+  induction l as [|y l IH]; simpl; [reflexivity|].
+  destruct (g y); simpl; [destruct (f y); simpl; [f_equal|]|]; assumption.
+Qed.
+
+Lemma remove_nat_filter t l : NoDup l -> remove_nat t l = filter (fun x => negb (x =? t)) l.
+Proof.
+  induction l as [|y l IH]; intros ND; simpl; [reflexivity|].
+  inversion ND as [|? ? Hy ND']; subst.
+  destruct (Nat.eqb_spec t y) as [->|N].
+  - rewrite Nat.eqb_refl. simpl. symmetry. apply filter_id.
+    intros x Hx. apply negb_true_iff, Nat.eqb_neq. intros ->. contradiction.
+  - replace (y =? t) with false by (symmetry; apply Nat.eqb_neq; congruence). simpl. f_equal. apply IH. assumption.
+Qed.
+
+(* finalising the elements [drops] one by one removes exactly them from the live set *)
+Lemma drops_events drops : forall live b,
+  NoDup live -> incl drops live -> NoDup drops ->
+  mon_events (mkmon live b) (map EFini drops)
+  = inl (mkmon (filter (fun t => negb (mem_nat t drops)) live) b).
+Proof.
+  induction drops as [|d drops IH]; intros live b NL IN ND; simpl.
+  - rewrite filter_id by reflexivity. reflexivity.
+  - assert (Hd : In d live) by (apply IN; left; reflexivity).
+    apply mem_nat_In in Hd. rewrite Hd.
+    inversion ND as [|? ? Nd ND']; subst.
+    rewrite IH; [|apply remove_nat_NoDup; assumption| |assumption].
+    + rewrite remove_nat_filter by assumption. rewrite filter_filter.
+      f_equal. f_equal. apply filter_ext. intros x. rewrite negb_orb. reflexivity.
+    + intros x Hx. apply remove_nat_In; [assumption|]. split; [apply IN; right; assumption|].
+      intros ->. contradiction.
+Qed.
+
+Lemma mem_nat_filter t f l : mem_nat t (filter f l) = mem_nat t l && f t.
+Proof.
+  induction l as [|y l IH]; simpl; [reflexivity|].
+  destruct (f y) eqn:F; simpl.
+  - rewrite IH. destruct (Nat.eqb_spec t y) as [->|]; simpl; [rewrite F; reflexivity|reflexivity].
+  - rewrite IH. destruct (Nat.eqb_spec t y) as [->|]; simpl; [rewrite F, andb_false_r; reflexivity|reflexivity].
+Qed.
+
+Lemma keep_of_abandoned ts live :
+  filter (fun t => negb (mem_nat t (abandoned ts live))) live = keep_stored ts live.
+Proof.
+  unfold keep_stored, abandoned. apply filter_ext_in. intros t Ht.
+  rewrite mem_nat_filter. apply mem_nat_In in Ht. rewrite Ht. simpl. apply negb_involutive.
+Qed.
+
+Lemma first_missing_ext l a b :
+  (forall x, In x l -> mem_nat x a = mem_nat x b) -> first_missing l a = first_missing l b.
+Proof.
+  induction l as [|y l IH]; intros H; simpl; [reflexivity|].
+  rewrite (H y (or_introl eq_refl)). destruct (mem_nat y b); [|reflexivity].
+  apply IH. intros x Hx. apply H. right. assumption.
+Qed.
+
+Lemma first_missing_none l a : (forall x, In x l -> mem_nat x a = true) -> first_missing l a = None.
+Proof.
+  induction l as [|y l IH]; intros H; simpl; [reflexivity|].
+  rewrite (H y (or_introl eq_refl)). apply IH. intros x Hx. apply H. right. assumption.
+Qed.
+
+(* the monitor for traits without finaliser = the monitor on the log completed by one abandon event
+   for every live element that is no longer stored *)
+Lemma monitor_step_nf_complete m evs stored :
+  mon_good m -> monitor_step_nf m evs stored = monitor_step m (complete_evs m evs stored) stored.
+Proof.
+  intros G. unfold monitor_step_nf, monitor_step, complete_evs.
+  destruct (mon_events m evs) as [m'|v] eqn:E; [|rewrite E; reflexivity].
+  destruct (slot_tokens stored) as [ts|] eqn:ST.
+  2:{ rewrite E. unfold stored_ok. rewrite ST. reflexivity. }
+  rewrite mon_events_app, E.
+  pose proof (mon_events_good _ _ _ G E) as [NL _].
+  destruct m' as [live b]. simpl mlive in *. simpl mbound.
+  rewrite drops_events; [|assumption| |].
+  2:{ unfold abandoned. intros x Hx. apply filter_In in Hx. tauto. }
+  2:{ unfold abandoned. apply NoDup_filter. assumption. }
+  rewrite keep_of_abandoned. unfold stored_ok. rewrite ST. simpl mlive.
+  destruct (first_dup ts); [reflexivity|].
+  rewrite (first_missing_ext ts (keep_stored ts live) live).
+  2:{ intros x Hx. unfold keep_stored. rewrite mem_nat_filter.
+      apply mem_nat_In in Hx. rewrite Hx. apply andb_true_r. }
+  destruct (first_missing ts live); [reflexivity|].
+  rewrite first_missing_none; [reflexivity|].
+  intros x Hx. unfold keep_stored in Hx. apply filter_In in Hx. tauto.
+Qed.
+
+Lemma monitor_step_nf_good m evs stored m' :
+  mon_good m -> monitor_step_nf m evs stored = inl m' -> mon_good m'.
+Proof.
+  intros G E. rewrite monitor_step_nf_complete in E by assumption. unfold monitor_step in E.
+  destruct (mon_events m (complete_evs m evs stored)) as [m1|] eqn:E1; [|discriminate].
+  destruct (stored_ok m1 stored); [discriminate|]. inversion E; subst.
+  eapply mon_events_good; eassumption.
+Qed.
+
+Lemma monitor_nf_complete obs : forall m,
+  mon_good m -> monitor_nf m obs = monitor m (complete_obs m obs).
+Proof.
+  induction obs as [|[[evs stored]|] obs IH]; intros m G; simpl; try reflexivity.
+  rewrite <- monitor_step_nf_complete by assumption.
+  destruct (monitor_step_nf m evs stored) as [m'|v] eqn:E; [|reflexivity].
+  f_equal. apply IH. eapply monitor_step_nf_good; eassumption.
+Qed.
